@@ -461,7 +461,6 @@ func checkEmbeddedStores(c *Ctx, rule string, gen *packages.Package) {
 
 }
 
-
 // checkRenderedBeforePlanning: planning models and operations writes into the loaded document
 // (definitions for anonymous types — makeNewStruct — and the in-place removal of validations
 // that do not fit the type — guardValidations → SetValidations). The documents that get
